@@ -7,18 +7,18 @@ git -C /repo worktree remove --force $WT 2>/dev/null
 git -C /repo worktree add -q --detach $WT HEAD || exit 3
 cd /verif
 out=/verif/seeded/RESULTS.tsv
-[ -z "$filter" ] && echo -e "seeded\tproperty\tcheck_exit\tdetected\twall_s\tfirst_violation" > $out
+[ -z "$filter" ] && printf 'seeded\tproperty\tcheck_exit\tdetected\twall_s\tfirst_violation\n' > $out
 for d in seeded/*/; do
   id=$(basename $d); [ -n "$filter" ] && [[ "$id" != $filter* ]] && continue
   pid=${id%%-*}
   git -C $WT reset -q --hard HEAD
-  git -C $WT apply $(realpath $d/patch.diff) || { echo -e "$id\t$pid\t-\tPATCH-FAILED\t0\t" | tee -a $out; continue; }
+  git -C $WT apply $(realpath $d/patch.diff) || { printf '%s\t%s\t-\tPATCH-FAILED\t0\t\n' "$id" "$pid" | tee -a $out; continue; }
   s=$(date +%s)
   VERIF_REPO=$WT VERIF_NO_EVIDENCE=1 ./check $pid --tier $tier > /tmp/seeded_$id.log 2>&1; rc=$?
   e=$(date +%s)
   first=$(grep -A1 -m1 "^VIOLATION" /tmp/seeded_$id.log | tail -1 | tr -cd '[:print:]' | cut -c1-220)
   det=no; [ $rc -eq 1 ] && grep -q "^VIOLATION property=$pid" /tmp/seeded_$id.log && det=yes
   [ $rc -ge 2 ] && det="machinery-error"
-  echo -e "$id\t$pid\t$rc\t$det\t$((e-s))\t$first" | tee -a $out
+  printf '%s\t%s\t%s\t%s\t%s\t%s\n' "$id" "$pid" "$rc" "$det" "$((e-s))" "$first" | tee -a $out
 done
 git -C /repo worktree remove --force $WT; git -C /repo worktree prune
